@@ -48,6 +48,7 @@ CONSTANTS
     RPCs,          \* the client functions explored
     Variants,      \* parameter variants (ranges, counts, tree shapes) chosen by the harness
     ReadVariants,  \* ... of ReadSector (more: whole-sector reads, zero-tailed sectors, ranges across the tail)
+    LifeVariants,  \* ... of the contract lifecycle RPCs (each case forms, confirms and renews a contract of its own)
     MaxFaults,     \* size of a fault plan: 1 = all single corruptions, 2 = + all pairs, ...
     NRandom,       \* random byte-level mutations per message
     DevUnchecked   \* <<rpc, field>> pairs the abstract client forgets to verify ({} = the client as intended;
@@ -70,6 +71,8 @@ Msgs(r) ==
       [] r = "ReplenishAccounts" -> <<"resp", "sig">>
       [] r = "ReplenishPools"    -> <<"resp", "sig">>
       [] r = "LatestRevision"    -> <<"resp">>
+      [] r \in {"FormContract", "RenewContract", "RefreshFull", "RefreshPartial"}
+                                 -> <<"inputs", "final">>  \* host inputs, (renter signs), basis + finalized transaction set
       [] r = "AccountBalance"    -> <<"resp">>
 
 \* client functions that return the host's answer verbatim: the statement makes no claim
@@ -86,7 +89,16 @@ Informational == {"LatestRevision", "AccountBalance"}
 \* append of nothing (sent; the honest host refuses).
 Unservable == {"ReadUnaligned", "FreeOutOfRange", "ReadInvalid", "RootsOutOfRange", "AppendEmpty"}
 
-AllRPCs == {"ReadUnaligned", "FreeOutOfRange", "ReadInvalid", "RootsOutOfRange", "AppendEmpty", "ReadSector", "WriteSector", "VerifySector", "SectorRoots", "AppendSectors", "FreeSectors",
+\* the contract lifecycle: RPCFormContract, RPCRenewContract, RPCRefreshContract{Full,Partial}Rollover
+Lifecycle == {"FormContract", "RenewContract", "RefreshFull", "RefreshPartial"}
+Renewing  == Lifecycle \ {"FormContract"}
+\* the fields of the (new) contract the final message carries
+ContractFields == {"Capacity", "Filesize", "FileMerkleRoot", "ProofHeight", "ExpirationHeight", "RenterOutputValue",
+                   "RenterOutputAddress", "HostOutputValue", "HostOutputAddress", "MissedHostValue", "TotalCollateral",
+                   "RenterPublicKey", "HostPublicKey", "RevisionNumber"}
+RenewalFields == {"FinalRenterOutput", "FinalHostOutput", "RenterRollover", "HostRollover"}
+
+AllRPCs == Lifecycle \cup {"ReadUnaligned", "FreeOutOfRange", "ReadInvalid", "RootsOutOfRange", "AppendEmpty", "ReadSector", "WriteSector", "VerifySector", "SectorRoots", "AppendSectors", "FreeSectors",
             "FundAccounts", "ReplenishAccounts", "ReplenishPools", "LatestRevision", "AccountBalance"}
 
 Swap == "swapFromOtherExchange"
@@ -177,6 +189,30 @@ Catalog ==
               \cup RawInner(r, "resp")
               \cup HostSig(r, "sig")
               \cup RawLast(r, "sig") : r \in {"ReplenishAccounts", "ReplenishPools"}}
+    \* ---- contract lifecycle: the FINAL message tampered with one field at a time while the honest
+    \*      signatures are replayed.  Binding: "id-bound" -- the field is covered by the ID of the contract
+    \*      transaction, which the renter compares with the transaction it negotiated; "signature-bound" --
+    \*      the host signatures are verified against hashes of the negotiated contract / renewal.  The
+    \*      returned revision must BE the negotiated one, field by field, with a valid host signature.
+    \cup UNION {   UNION {E(r, "final", f, {"flip"}, "unbind") : f \in ContractFields}               \* id-bound
+              \cup E(r, "final", "RenterOutputValue", {"resign"}, "unbind")    \* allowance moved to the host, re-signed by it
+              \cup E(r, "final", "MinerFee", {"flip"}, "unbind")                                    \* id-bound
+              \cup E(r, "final", "SiacoinInputs", {"truncate"}, "unbind")
+              \cup E(r, "final", "SiacoinOutputs", {"extend"}, "unbind")
+              \cup E(r, "final", "ContractHostSignature", {"flip", Swap}, "unbind")                  \* signature-bound
+              \cup E(r, "final", "ContractRenterSignature", {"flip"}, "info")   \* the renter's own signature: not re-checked
+              \cup E(r, "final", "TransactionSet", {"truncate", "wrongCount"}, "evidence")
+              \cup E(r, "final", "TransactionSet", {"extend"}, "info")          \* parents are the pool's business
+              \cup E(r, "final", "Basis", {"flip"}, "info")
+              \cup RawLast(r, "final")
+              \cup E(r, "inputs", "HostInputs", {"truncate", "wrongCount"}, "evidence")
+              \cup RawInner(r, "inputs") : r \in Lifecycle}
+    \cup UNION {   UNION {E(r, "final", f, {"flip"}, "unbind") : f \in RenewalFields}                \* id-bound
+              \cup E(r, "final", "ParentID", {"flip"}, "unbind")
+              \cup E(r, "final", "Resolution", {"otherRoot"}, "unbind")         \* another kind of resolution
+              \cup E(r, "final", "RenewalHostSignature", {"flip", Swap}, "unbind")                   \* signature-bound
+              \cup E(r, "final", "RenewalRenterSignature", {"flip"}, "info") : r \in Renewing}
+    \cup E("FormContract", "final", "FileContracts", {"extend"}, "unbind")      \* a second contract rides along
     \* ---- informational
     \cup E("LatestRevision", "resp", "Contract", {"flip", Swap, "resign"}, "info")
     \cup E("LatestRevision", "resp", "Revisable", {"flip"}, "info")
@@ -200,9 +236,13 @@ Checked ==
   \cup {<<"FundAccounts", f>> : f \in {"Balances", "HostSignature", "Raw"}}
   \cup {<<r, f>> : r \in {"ReplenishAccounts", "ReplenishPools"}, f \in {"Deposits", "HostSignature", "Raw"}}
   \cup {<<"LatestRevision", "Raw">>, <<"AccountBalance", "Raw">>}
+  \* lifecycle: transaction ID comparison + host signature checks + structural checks of the final set
+  \cup {<<r, f>> : r \in Lifecycle, f \in ContractFields \cup RenewalFields \cup
+            {"MinerFee", "SiacoinInputs", "SiacoinOutputs", "FileContracts", "ParentID", "Resolution", "TransactionSet",
+             "ContractHostSignature", "RenewalHostSignature", "HostInputs", "Raw"}}
 
 -----------------------------------------------------------------------------
-VariantsOf(r) == IF r = "ReadSector" THEN ReadVariants ELSE Variants
+VariantsOf(r) == IF r = "ReadSector" THEN ReadVariants ELSE IF r \in Lifecycle THEN LifeVariants ELSE Variants
 Cat(r) == {c \in Catalog : c.rpc = r}
 F(c) == [msg |-> c.msg, field |-> c.field, how |-> c.how, k |-> 0]
 MsgSet(r) == {Msgs(r)[i] : i \in DOMAIN Msgs(r)}
